@@ -91,6 +91,8 @@ def check(run):
     c = ctx(run)
     std(run)
     keys = ADDS if run.tier == "thorough" else [ADDS[0], ADDS[2], ADDS[3]]
+    # add() on a container with ANY number of children (table of unbounded size), then the 0/1-child contracts as a cross-check
+    keys = ["meth:composeinfo.Variants.add:any", "meth:composeinfo.Variant.add:any"] + list(keys)
     for k in keys:
         verify.verify(run, c.E, c.contracts[k], crosscheck=False)
     known = known_findings(run, "productmd.composeinfo.VariantBase.__getitem__")
